@@ -21,6 +21,7 @@ RULE = ("Exhaustive table: trigger kind {UTC absolute, zoned, floating, date} x 
         "an order-preserving sub-list of Alarms.times; making the acknowledgement later never turns an inactive alarm active; "
         "the only permitted error is LocalTimezoneMissing, and only for floating/date triggers without a local zone when the "
         "trigger must be compared. Non-trivial: >= 2 of the four instants present; distinct by construction / hash.")
+RULE += ' Rounds 7-8: snooze against a zoned trigger inside a repeated hour; a refused second component leaves the Alarms object unchanged; sub-second distances on the API paths.'
 ASSUMPTIONS = ["in Thunderbird mode (any X-MOZ- property) the component acknowledgement is X-MOZ-LASTACK, otherwise DTSTAMP",
                "a date-valued trigger stands for local midnight"]
 REQUIRED_CLASSES = ["multi-alarm", "tkind:utc", "tkind:zoned", "tkind:floating", "tkind:date", "mode:dtstamp", "mode:moz", "mode:moz-parse", "mode:manual",
